@@ -40,12 +40,13 @@ theorem generated_all_ops_known_c09 : taskSemKnown = true := by decide
 
 
 
+
 -- BEGIN PINS (written by bin/mkpins; do not edit by hand)
 /-- the Go functions this property's model and obligations were written against have exactly the
 pinned skeletons (SHA-256 prefix of the atom list) -/
 theorem pinned_skeletons_c09 :
     pinsOk
-    [("Scipipe.#decls", "7633eb8a74616d59"),
+    [("Scipipe.#decls", "08e57e98702ecd70"),
      ("Scipipe.BaseProcess_Fail", "06794419eac40800"),
      ("Scipipe.BaseProcess_Failf", "536c85ecebfbb5bd"),
      ("Scipipe.CheckWithMsg", "9c35c41ab8e8dc71"),
